@@ -677,9 +677,10 @@ def signature(case, obs, reason):
         return "parents-installed-after-own-positionals"
     if "group-settings" in clauses and _group_falsy(obs) and (not nongroup or _same(m_first, sp, obs)):
         return "group-falsy-override-dropped"
-    if clauses == ["status"] and obs["pre"] == ["exit", 2] and obs["oracle"][:2] == ["exit", 0]:
-        # the subgroup choice is parsed in a pass of its own, before the main parser can see -h/--help
-        return "subgroup-prepass-error-before-help"
+    if clauses == ["status"] and obs["pre"] == ["exit", 2] and obs["oracle"][0] != "ok":
+        # the subgroup choice is parsed in a pass of its own, BEFORE the main parser sees anything: a malformed subgroup
+        # option wins over -h/--help (argparse: exit 0) and over whatever else argparse would have stopped at first
+        return "subgroup-prepass-error-first"
     return "+".join(clauses) + ":" + case["forest"]
 
 
